@@ -180,7 +180,7 @@ class RegionGeom:
             2 * self.earth_radius * self.losPathLen
         )
 
-        thetaNSubV = np.arccos(self.costhetaNSubV)
+        thetaNSubV = np.arccos(np.clip(self.costhetaNSubV, -1.0, 1.0))
 
         self.costhetaTrSubN = np.cos(self.thetaTrSubV) * self.costhetaNSubV - np.sin(
             self.thetaTrSubV
